@@ -136,7 +136,7 @@ pub fn run(tier: &str) -> i32 {
     let cs = cases(nkeys, if thorough { 4 } else { 3 });
     // `-2data`: the same data given as two files (every file must get the merged verdicts); `-dir`: the parameter files in
     // a directory that also holds files of other kinds sorting before, between and after them
-    let modes = ["plain", "structured", "stdin", "payload-plain", "payload-structured", "plain-2data", "structured-2data", "plain-dir", "structured-dir", "plain-samename", "structured-samename", "plain-dotname", "structured-dotname"];
+    let modes = ["plain", "structured", "stdin", "payload-plain", "payload-structured", "plain-2data", "structured-2data", "plain-dir", "structured-dir", "plain-samename", "structured-samename", "plain-dotname", "structured-dotname", "junit", "sarif"];
     // baseline: the pre-merged document (any key order gives the same verdicts: checked by using both orders)
     let all: Vec<usize> = (0..nkeys).collect();
     let n = cs.len() * modes.len();
@@ -149,7 +149,8 @@ pub fn run(tier: &str) -> i32 {
         let merged = obj(&all, None);
         let mp = put("c17/merged.json", &merged);
         let structured = mode.contains("structured");
-        let base_args: Vec<String> = if structured { sv(&["--structured", "-o", "json", "-S", "none"]) } else { sv(&["-S", "all"]) };
+        let xml_like = mode == "junit" || mode == "sarif";
+        let base_args: Vec<String> = if xml_like { sv(&["--structured", "-o", mode, "-S", "none"]) } else if structured { sv(&["--structured", "-o", "json", "-S", "none"]) } else { sv(&["-S", "all"]) };
         let mut bargv = sv(&["validate", "-r", &rp, "-d", &mp]);
         bargv.extend(base_args.clone());
         let bo = cli_inproc(&bargv, "");
@@ -175,7 +176,7 @@ pub fn run(tier: &str) -> i32 {
         let mut argv = sv(&["validate"]);
         let mut stdin = String::new();
         match mode {
-            "plain" | "structured" | "plain-dir" | "structured-dir" | "plain-samename" | "structured-samename" | "plain-dotname" | "structured-dotname" => {
+            "junit" | "sarif" | "plain" | "structured" | "plain-dir" | "structured-dir" | "plain-samename" | "structured-samename" | "plain-dotname" | "structured-dotname" => {
                 argv.extend(vec!["-r".into(), rp.clone(), "-d".into(), put("c17/data.json", &data_txt)]);
             }
             "plain-2data" | "structured-2data" => {
@@ -264,6 +265,14 @@ pub fn run(tier: &str) -> i32 {
             };
             if per_file.len() != 2 || per_file.iter().any(|l| *l != bst) || o.status() != bo.status() {
                 acc.violate(&format!("merge-differs:two-data-files:{}", if structured { "structured" } else { "plain" }), format!("{}: per-file verdicts {:?} exit {} but the merged document gives {:?} exit {}", label, per_file, o.status(), bst, bo.status()), replay(format!("{:?} exit {}", per_file, o.status())));
+            }
+            return;
+        }
+        if xml_like {
+            // the report of the merged document, with the data file's name put in place
+            let norm = |t: &str| crate::c05::mask_times(t).replace("merged.json", "DATA").replace("data.json", "DATA");
+            if norm(&o.out) != norm(&bo.out) || o.status() != bo.status() {
+                acc.violate(&format!("merge-differs:{}:{}", class, mode), format!("{}: the {} report (exit {}) differs from the one of the merged document (exit {})", label, mode, o.status(), bo.status()), replay(format!("exit {} report {}", o.status(), o.out.chars().take(300).collect::<String>())));
             }
             return;
         }
